@@ -63,7 +63,7 @@ def project(r, fields):
     k = r.get('kind')
     o = {'kind': k}
     if k == 'ok':
-        for f in ('out', 'prints', 'vars', 'tree', 'val'):
+        for f in ('out', 'prints', 'vars', 'tree', 'val', 'toks'):
             if f in fields and f in r: o[f] = r[f]
         if 'warns' in fields: o['warns'] = canon_warns(r.get('warns'))
         if 'cfgAfter' in fields and 'cfgAfter' in r: o['cfgAfter'] = r['cfgAfter']
@@ -79,7 +79,7 @@ def project(r, fields):
     return o
 
 
-ALL_FIELDS = ('out', 'prints', 'vars', 'warns', 'cls', 'trace', 'errprints', 'lineNo', 'tree', 'val')
+ALL_FIELDS = ('out', 'prints', 'vars', 'warns', 'cls', 'trace', 'errprints', 'lineNo', 'tree', 'val', 'toks')
 
 
 def diff(impl, model, fields=ALL_FIELDS):
